@@ -210,6 +210,11 @@ def inherent(ex, ci, sb, meth, args, fn, dest_ty):
         if meth == 'filter':
             if some and ex.branch(ex.call_closure(args[1], [Ref(o.fields[0])])): return o
             return opt(None)
+        if meth in ('get_or_insert_with', 'get_or_insert', 'get_or_insert_default'):
+            if not some:
+                v_ = ex.call_closure(args[1], []) if meth == 'get_or_insert_with' else args[1] if meth == 'get_or_insert' else __import__('models').default_of(ex, re.match(r'Option<(.*)>', ci.selfty or '').group(1))
+                o.variant = 1; o.fields[:] = [Cell(v_)]
+            return Ref(o.fields[0])
         if meth == 'unwrap_unchecked': return o.fields[0].v
         if meth == 'insert' or meth == 'replace':
             old = Agg('Option', o.variant, list(o.fields))
@@ -328,6 +333,12 @@ def inherent(ex, ci, sb, meth, args, fn, dest_ty):
             return z_and(*[seq(ex, items[s + i].v, o_items[os_ + i].v) for i in range(m)])
         if meth == 'to_vec' or meth == 'into_vec' or meth == 'to_owned':
             return VecV([Cell(clone(ex, c_.v)) for c_ in items[s:e]])
+        if meth == 'is_ascii' and all(isinstance(c_.v, Int) for c_ in items[s:e]):
+            cs = []
+            for c_ in items[s:e]:
+                b = c_.v
+                cs.append((b.v < 128) if isinstance(b.v, int) else z3.ULT(b.v, 128))
+            return z_and(*cs)
         if meth == 'to_ascii_lowercase':
             out = []
             for c_ in items[s:e]:
